@@ -111,6 +111,17 @@ pub fn run() -> i32 {
         }
     };
     chk(ro["tcp_refused_after_drop_ms"].as_u64().map_or(false, |ms| ms <= 1000), "TCP connect refused within 1 s after drop", &mut real_fail);
+    let prow = ro["tcp_peer_address_by_family"].as_array().cloned().unwrap_or_default();
+    chk(prow.iter().filter(|r| r["connected"].as_bool() == Some(true)).count() >= 4, "peer addresses could be compared on at least the IPv4 listeners", &mut real_fail);
+    for r in &prow {
+        if r["connected"].as_bool() == Some(true) {
+            chk(
+                r["equal_after_unmapping"].as_bool() == Some(true),
+                &format!("peer address: listener {} reached through {}: the application is told {} for the client socket {}", r["bind"], r["connect_to"], r["reported_to_application"], r["client_socket_address"]),
+                &mut real_fail,
+            );
+        }
+    }
     let rows = ro["tcp_drop_by_bind_address"].as_array().cloned().unwrap_or_default();
     chk(rows.iter().filter(|r| r["bound"].as_bool() == Some(true)).count() >= 8, "the server could be bound on the IPv4 bind-address classes (127.0.0.1, 127.0.0.2, 127.1.2.3, 0.0.0.0)", &mut real_fail);
     for r in &rows {
@@ -141,7 +152,7 @@ pub fn run() -> i32 {
     }
     for m in report["real_only_failures"].as_array().unwrap() {
         let what = m.as_str().unwrap_or("");
-        let prop = if what.contains("recv") { "C17" } else if what.contains("reset at once") { "C15" } else { "C20" };
+        let prop = if what.contains("peer address") { "C02" } else if what.contains("recv") { "C17" } else if what.contains("reset at once") { "C15" } else { "C20" };
         println!("VIOLATION property={} replay={}", prop, dir.join("evidence").join("conformance.json").display());
         println!("  on kernel sockets: {} does not hold", what);
     }
